@@ -64,7 +64,7 @@ class Rec:
         return r
 
 
-def gen_case(rng, dyadic=True, narrow=False, negdx=False):
+def gen_case(rng, dyadic=True, narrow=False, negdx=False, critical=False):
     order = rng.choice([2, 4])
     n = rng.choice([1, 2])
     e = rng.randint(-34, 10)
@@ -79,6 +79,10 @@ def gen_case(rng, dyadic=True, narrow=False, negdx=False):
         # 0 < width < K*dx, in eighths of a step (both sides of one step)
         kind = "both"
         width_steps = Fraction(rng.randint(1, 8 * K - 1), 8)
+    if critical:
+        # width == fl(K*dx) (or one ulp either side): the boundary of `wide` in binary64
+        kind = "both"
+        width_steps = K
     base = Fraction(rng.randint(-40, 40)) * Fraction(2) ** e * 64 if dyadic else \
         Fraction(rng.uniform(-3, 3))
     zero_end = rng.random() < 0.25      # a bound exactly 0 (what derivT passes)
@@ -86,7 +90,11 @@ def gen_case(rng, dyadic=True, narrow=False, negdx=False):
     if zero_end:
         lb = Fraction(0) if rng.random() < 0.5 else -width_steps * dx
     ub = lb + width_steps * dx
-    if not dyadic and not narrow:
+    if critical:
+        ub = Fraction(float(np.nextafter(float(lb) + K * float(dx),
+                                         rng.choice([-np.inf, np.inf, float(lb) + K * float(dx)]))))
+        lb = Fraction(float(lb))
+    elif not dyadic and not narrow:
         # Non-dyadic floats: keep a relative margin 2^-20 above the critical width K*dx.
         # At EXACTLY that width with x on a step multiple the one-sided row reaches the far
         # bound exactly, and binary64 rounding of x - 3*dx can land 1 ulp outside (seen on
@@ -102,6 +110,8 @@ def gen_case(rng, dyadic=True, narrow=False, negdx=False):
             ub = Fraction(float(lb + dx))
     # position relative to the bounds: exactly j steps from either, or in between
     pos = rng.choice(["at", "steps", "between", "interior"])
+    if critical:
+        pos = rng.choice(["at", "steps", "steps", "steps"])
     j = rng.randint(0, 3)
     side = rng.choice(["lo", "hi"])
     if pos == "at":
@@ -123,6 +133,7 @@ def gen_case(rng, dyadic=True, narrow=False, negdx=False):
     return dict(order=order, n=n, x=x, dx=-dx if negdx else dx, bounds=bounds,
                 coeffs=coeffs, pos=pos,
                 kind=kind + ("0" if zero_end else "") + ("-narrow" if narrow else "")
+                + ("-critical" if critical else "")
                 + ("-negdx" if negdx else ""), dyadic=dyadic,
                 int_bounds=rng.random() < 0.5)
 
@@ -696,7 +707,7 @@ def step_limits(ctx, rng, ncases):
     dx < 0 is likewise outside (a step size is a magnitude); the VALUE is still judged
     (derivative_value_exact covers every dx != 0), the abscissas are only counted."""
     from WallGo import helpers
-    nan_seen = below = 0
+    nan_seen = below = rejected = 0
     neg_out = neg = 0
     for it in range(ncases):
         order = rng.choice([2, 4])
@@ -730,16 +741,23 @@ def step_limits(ctx, rng, ncases):
                                dict(kind="ulp", case=case), key="inexact-%d-%d" % (order, n))
         # below the resolution of x: observation only
         g = Rec(coeffs)
-        r0 = helpers.derivative(g, x, n=n, order=order, dx=u * 0.25)
         below += 1
-        nan_seen += not math.isfinite(float(r0))
+        try:
+            r0 = helpers.derivative(g, x, n=n, order=order, dx=u * 0.25)
+            nan_seen += not math.isfinite(float(r0))
+        except AssertionError:
+            rejected += 1
         # negative step: value judged, abscissas counted
         h = Rec(coeffs)
-        xs = rng.uniform(0, 3)
         dxn = -rng.uniform(0.1, 1.0) * 10.0 ** rng.randint(-6, 0)
-        rn = helpers.derivative(h, xs, n=n, order=order, bounds=(0.0, np.inf), dx=dxn)
-        pn = np.asarray(h.calls[0]).ravel()
+        xs = rng.choice([0.0, -dxn, rng.uniform(0, 2) * -dxn, rng.uniform(0, 3)])
         neg += 1
+        try:
+            rn = helpers.derivative(h, xs, n=n, order=order, bounds=(0.0, np.inf), dx=dxn)
+        except AssertionError:
+            rejected += 1
+            continue
+        pn = np.asarray(h.calls[0]).ravel()
         neg_out += bool(pn.min() < 0)
         dxe = Fraction(float(xs + dxn)) - Fraction(xs)
         want = h.dexact(Fraction(xs), n)
@@ -751,7 +769,8 @@ def step_limits(ctx, rng, ncases):
                            key="inexact-%d-%d" % (order, n))
     ctx.log("observation (outside the quantifier): dx < ulp(x)/2 -> non-finite result in "
             "%d of %d calls; dx < 0 with bounds (0, inf) -> abscissas below 0 in %d of %d "
-            "calls (value exact in all)" % (nan_seen, below, neg_out, neg))
+            "calls (value exact in all); %d calls rejected by an assertion" % (
+                nan_seen, below, neg_out, neg, rejected))
 
 
 # ---------------------------------------------------------------------------------------
@@ -1132,6 +1151,9 @@ def run(ctx):
         try:
             res, pts, f = run_impl(case)
         except Exception as e:  # implementation raised on an admissible input
+            if case["dx"] < 0 and isinstance(e, AssertionError):
+                ctx.count("rejected_negdx")     # dx < 0 is outside the quantifier
+                return None
             ctx.fail_input("derivative raised %r" % e, dict(kind="raise",
                                                            case=jcase(case)),
                            key="raises")
@@ -1178,6 +1200,10 @@ def run(ctx):
         one(gen_case(ctx.rng, dyadic=False), "float")
     for i in range(ctx.n(250, 4000)):
         one(gen_case(ctx.rng, dyadic=False, narrow=True), "float_narrow")
+    # width == fl(K*dx) +- 1 ulp with x on step multiples: an excursion of an ulp is in the
+    # class of the recorded finding iff the interval is narrower than K exact steps
+    for i in range(ctx.n(300, 5000)):
+        one(gen_case(ctx.rng, dyadic=False, critical=True), "float_critical")
     array_family(ctx, ctx.rng, ctx.n(40, 600))
     misc_inputs(ctx, ctx.rng, ctx.n(40, 600))
     step_limits(ctx, ctx.rng, ctx.n(40, 600))
